@@ -112,7 +112,12 @@ func VP_C12_literals() {
 	n := 1 + vpChoice("n", L)
 	text := vpBytes("t", n)
 	for _, c := range text {
-		vpAssume(vpIsDigit(c) || c == '.' || c == 'e' || c == 'E' || c == '+' || c == '-' || c == '_' || c == 'a')
+		if vpParam("ALPHA") == 1 {
+			// reduced alphabet (longer literals at the same cost): digits . e - _
+			vpAssume(vpIsDigit(c) || c == '.' || c == 'e' || c == '-' || c == '_')
+		} else {
+			vpAssume(vpIsDigit(c) || c == '.' || c == 'e' || c == 'E' || c == '+' || c == '-' || c == '_' || c == 'a')
+		}
 	}
 	kind, digits, frac, exp := vpRefLiteral(text)
 	vpAssume(kind != vpLitNotLiteral)
